@@ -366,7 +366,7 @@ def verify_hmac_sha1(request):
     """Verify a HMAC-SHA1 signature."""
     base_string = generate_signature_base_string(request)
     sig = hmac_sha1_signature(base_string, request.client_secret, request.token_secret)
-    return hmac.compare_digest(sig, request.signature)
+    return hmac.compare_digest(to_bytes(sig), to_bytes(request.signature))
 
 
 def verify_rsa_sha1(request):
@@ -381,4 +381,4 @@ def verify_rsa_sha1(request):
 def verify_plaintext(request):
     """Verify a PLAINTEXT signature."""
     sig = plaintext_signature(request.client_secret, request.token_secret)
-    return hmac.compare_digest(sig, request.signature)
+    return hmac.compare_digest(to_bytes(sig), to_bytes(request.signature))
